@@ -36,14 +36,19 @@ const (
 	credMark = "Q"
 )
 
+// hostPort spells the authority; the "-noport" kinds omit the port (default 554).
 func hostPort(auth string, port int) string {
-	switch auth {
+	h := "127.0.0.1"
+	switch strings.TrimSuffix(auth, "-noport") {
 	case "ipv6":
-		return fmt.Sprintf("[::1]:%d", port)
+		h = "[::1]"
 	case "localhost":
-		return fmt.Sprintf("localhost:%d", port)
+		h = "localhost"
 	}
-	return fmt.Sprintf("127.0.0.1:%d", port)
+	if strings.HasSuffix(auth, "-noport") {
+		return h
+	}
+	return fmt.Sprintf("%s:%d", h, port)
 }
 
 func (c urlCase) build(port int) string {
